@@ -990,3 +990,83 @@ class FlagEngine:
                 f = b
         tr = t.otherwise
         return [tr] if tested else ([f] if f is not None else [])
+
+
+# ---------------------------------------------------------------------------------- in-place buffer writes
+
+REF_THROUGH = re.compile(r"(ops::IndexMut|ops::Index|ops::DerefMut|ops::Deref|convert::AsMut|convert::AsRef|borrow::BorrowMut)>?::\w+$"
+                         r"|::(as_mut_slice|as_mut|as_slice|get_mut|split_at_mut|iter_mut|deref_mut|index_mut)$")
+BUFFER_WRITERS = re.compile(r"::(copy_from_slice|clone_from_slice|extend_from_slice|extend|push|put_slice|put_u8|append|fill|write_all|insert|apply_keystream)$")
+
+
+def aliases_of(body, local):
+    """locals holding a (mutable or shared) reference derived from `local`, found by a forward closure
+    over `x = &mut L[..]`, reborrows, moves and reference-returning calls (index_mut, deref_mut, ..)"""
+    al = set()
+    changed = True
+    while changed:
+        changed = False
+        for b in body.blocks:
+            if b.cleanup:
+                continue
+            for s in b.stmts:
+                if s.k != "a" or not s.lhs.is_local() or s.lhs.local in al:
+                    continue
+                src = None
+                if s.rv.k in ("ref", "rawptr"):
+                    src = s.rv.place.local
+                    if src == local or src in al:
+                        al.add(s.lhs.local)
+                        changed = True
+                elif s.rv.k in ("use", "cast") and s.rv.ops[0].place is not None:
+                    src = s.rv.ops[0].place.local
+                    if src in al:
+                        al.add(s.lhs.local)
+                        changed = True
+            t = b.term
+            if t.k == "call" and t.dest.is_local() and t.dest.local not in al and t.args and t.args[0].place is not None:
+                if t.args[0].place.local in al and any(REF_THROUGH.search(short(n) or "") for n in t.names()):
+                    al.add(t.dest.local)
+                    changed = True
+    return al
+
+
+def writes_into(body, prov, local):
+    """calls that write into the buffer held in `local`: [(block, method, [source exprs], Term)]"""
+    al = aliases_of(body, local)
+    out = []
+    for bi, t in body.calls():
+        if not t.args or t.args[0].place is None or t.args[0].place.local not in al:
+            continue
+        n = short(t.callee() or "")
+        m = BUFFER_WRITERS.search(n)
+        if m:
+            out.append((bi, m.group(1), [prov.operand(a) for a in t.args[1:]], t))
+    return out
+
+
+def write_range(body, prov, t):
+    """for dst = index_mut(buf, RANGE) feeding a copy_from_slice call `t`: the (start, end) constants of RANGE"""
+    if t.args[0].place is None:
+        return None
+    cur = t.args[0].place.local
+    for _ in range(6):
+        nxt = None
+        for b in body.blocks:
+            tt = b.term
+            if tt.k == "call" and tt.dest.is_local() and tt.dest.local == cur and callee_matches(tt, r"index_mut$|IndexMut.*::index_mut$"):
+                rng = prov.operand(tt.args[1])
+                for x in walk(rng):
+                    if x[0] == "agg" and "ops::Range" in x[1]:
+                        f = dict(x[2])
+                        return (const_int_of(f["start"]) if "start" in f else 0, const_int_of(f["end"]) if "end" in f else None)
+                return None
+            for s in b.stmts:
+                if s.k == "a" and s.lhs.is_local() and s.lhs.local == cur and s.rv.place is not None:
+                    nxt = s.rv.place.local
+                elif s.k == "a" and s.lhs.is_local() and s.lhs.local == cur and s.rv.k in ("use", "cast") and s.rv.ops[0].place is not None:
+                    nxt = s.rv.ops[0].place.local
+        if nxt is None:
+            return None
+        cur = nxt
+    return None
